@@ -58,7 +58,7 @@ type IndexedState struct {
 	// Loaded indicates whether we have loaded data from Store.
 	Loaded bool
 
-	cachedRules map[string]*Rule
+	cachedRules *ruleCache
 
 	addHook AddHookFn
 
@@ -111,7 +111,7 @@ func NewIndexedState(ctx *Context, name string, store Storage) (*IndexedState, e
 		return nil, err
 	}
 	s.Store = store
-	s.cachedRules = make(map[string]*Rule)
+	s.cachedRules = newRuleCache()
 	return &s, nil
 }
 
@@ -254,7 +254,7 @@ func extractTermsAux(ctx *Context, x interface{}, terms StringSet, depth int) {
 
 func (s *IndexedState) Add(ctx *Context, id string, x Map) (string, error) {
 	Log(DEBUG, ctx, "IndexedState.Add", "state", s.Name, "factx", x, "id", id)
-	delete(s.cachedRules, id)
+	s.cachedRules.drop(id)
 	s.slock(ctx, false)
 	id, err := s.add(ctx, id, x)
 	// Store what was prepared (with the absolute 'expires'), not
@@ -443,7 +443,7 @@ func (s *IndexedState) Rem(ctx *Context, id string) (bool, error) {
 
 func (s *IndexedState) rem(ctx *Context, id string) (bool, error) {
 	Log(DEBUG, ctx, "IndexedState.rem", "name", s.Name, "id", id)
-	delete(s.cachedRules, id)
+	s.cachedRules.drop(id)
 
 	// Currently we don't return an error if the fact isn't found.
 	// ToDo: Reconsider.  For example, maybe have an additional
@@ -533,7 +533,7 @@ func (s *IndexedState) Clear(ctx *Context) error {
 	s.slock(ctx, false)
 	defer s.sunlock(ctx, false)
 
-	s.cachedRules = make(map[string]*Rule)
+	s.cachedRules.clear()
 	if err := s.remHooks(ctx); err != nil {
 		return err
 	}
@@ -551,7 +551,7 @@ func (s *IndexedState) Delete(ctx *Context) error {
 	s.slock(ctx, false)
 	defer s.sunlock(ctx, false)
 
-	s.cachedRules = make(map[string]*Rule)
+	s.cachedRules.clear()
 	if err := s.remHooks(ctx); err != nil {
 		return err
 	}
@@ -787,15 +787,17 @@ func (s *IndexedState) FindCachedRules(ctx *Context, event Map) (map[string]*Rul
 
 	acc := make(map[string]*Rule)
 	for id, r := range rules {
-		if _, isCached := s.cachedRules[id]; isCached {
-			acc[id] = s.cachedRules[id]
+		if rule := s.cachedRules.get(id, r); rule != nil {
+			acc[id] = rule
 		} else {
 			rule, err := RuleFromMap(ctx, r)
 			if err != nil {
 				return nil, err
 			}
+			// The id is set before the rule is shared through the cache.
+			rule.Id = id
 			acc[id] = rule
-			s.cachedRules[id] = rule
+			s.cachedRules.put(id, r, rule)
 		}
 	}
 	return acc, nil
